@@ -176,6 +176,20 @@ def rand_text(rng, maxchars=8):
             out.append("%02x%02x" % (0xc0 | (cp >> 6), 0x80 | (cp & 0x3f)))
     return "".join(out) or "-"
 
+BAD_ELEMS = ["01", "09", "0a", "1b", "1f", "7f", "80", "9f", "bf", "f8", "ff", "c280", "c29f", "c285"]
+BAD_TAILS = ["c2", "c3", "e2", "e282", "f0", "f09f", "f09f98"]      # truncated sequences: only at the very end
+def bad_text(rng):
+    """a text put_string rejects (tickit_utf8_ncount returns -1): a control character, a byte that cannot lead a
+    sequence, a C1 control, or a truncated multi-byte sequence, after a prefix of ordinary characters"""
+    pre = rand_text(rng, 5); pre = "" if pre == "-" else pre
+    if rng.random() < 0.35: return pre + rng.choice(BAD_TAILS)
+    suf = rand_text(rng, 3); suf = "" if suf == "-" else suf
+    return pre + rng.choice(BAD_ELEMS) + suf
+def text_op(rng): return rng.choice(["btext", "btext", "btextf", "btextc"])
+def long_text(rng):
+    """more than the 64 bytes put_vtextf keeps on the stack"""
+    return "".join("%02x" % rng.choice(ASCII) for _ in range(rng.randint(62, 70)))
+
 def gen_objects_history(rng):
     emit("new 6 12")
     nw = 1; npens = 0; nstr = 0; nrb = 0
@@ -192,7 +206,10 @@ def gen_objects_history(rng):
         elif r < 0.46 and nstr: emit("%s %d" % (rng.choice(["sref", "sunref", "sunref", "sget"]), rng.randrange(nstr)))
         elif r < 0.52: emit("rb %d %d" % (rng.randint(1, 3), rng.randint(1, 10))); nrb += 1
         elif r < 0.60 and nrb: emit("%s %d" % (rng.choice(["bref", "bunref", "bunref", "bclear", "breset", "bsave", "bsavepen", "brestore", "brestore", "bflush"]), rng.randrange(nrb)))
-        elif r < 0.70 and nrb: emit("btext %d %d %d %s" % (rng.randrange(nrb), rng.randint(0, 2), rng.randint(-2, 9), rand_text(rng)))
+        elif r < 0.70 and nrb:
+            q = rng.random()
+            t = bad_text(rng) if q < 0.3 else long_text(rng) + (rng.choice(BAD_ELEMS) if rng.random() < 0.5 else "") if q < 0.36 else rand_text(rng)
+            emit("%s %d %d %d %s" % (text_op(rng), rng.randrange(nrb), rng.randint(0, 2), rng.randint(-2, 9), t))
         elif r < 0.74 and nrb: emit("berase %d %d %d %d" % (rng.randrange(nrb), rng.randint(0, 2), rng.randint(-1, 9), rng.randint(1, 6)))
         elif r < 0.77 and nrb and npens: emit("bsetpen %d %s" % (rng.randrange(nrb), rng.choice(["-"] + [str(k) for k in range(npens)])))
         elif r < 0.82: emit("unref %d" % rng.randrange(nw))
@@ -257,7 +274,7 @@ def gen_copyout_history(rng):
     for _ in range(rng.randint(1, 7)):
         r = rng.random(); line = rng.randrange(L); col = rng.randint(-1, C - 1)
         if r < 0.55:
-            t = rand_text(rng, 7); emit("btext 0 %d %d %s" % (line, col, t))
+            t = bad_text(rng) if rng.random() < 0.2 else rand_text(rng, 7); emit("%s 0 %d %d %s" % (text_op(rng), line, col, t))
         elif r < 0.70: emit("berase 0 %d %d %d" % (line, col, rng.randint(1, 5)))
         elif r < 0.78: emit("bskip 0 %d %d %d" % (line, col, rng.randint(1, 4)))
         elif r < 0.90: emit("bchar 0 %d %d %d" % (line, col, rng.choice([0x41, 0xe9, 0x20ac, 0x4e2d, 0x1f600, 0x7e])))
